@@ -1,3 +1,4 @@
+import BalmProofs.BlockSpec
 import BalmProofs.JudgeSpec
 import Balm
 import BalmProofs.Props.C04
